@@ -17,7 +17,8 @@ ID = "C06"
 RULE = (
     "Hypothesis draws HDS specs (v1 'WithoutFreeSpace' with BAT in sectors and 32-bit size, v2 'WithouFreSpacExt' with BAT "
     "in clusters and 64-bit size; cluster size 1..4096 sectors, powers of two weighted; BAT = any allocated subset with a "
-    "placement permutation with gaps; a third of the cases force an allocated cluster whose file offset equals the byte "
+    "placement permutation with gaps, optionally at BAT entry values around and above 2^31; version-1 headers with m_FirstBlockOffset "
+    "set or left zero; a third of the cases force an allocated cluster whose file offset equals the byte "
     "length of the unallocated run before it, or is one cluster off) and plain images; opened as HDS(fh) and, for one case in "
     "six, as HDD(dir).open() from a generated DiskDescriptor.xml in a temp dir. Reads must equal the content model. "
     "Non-trivial = a request contains an unallocated run directly followed by an allocated cluster, or the image is v1."
@@ -53,6 +54,15 @@ def hds_spec(draw, tier="quick", layer=0, geometry=None, version=None):
     slots = draw(strat.placement(len(alloc_l)))
     shift = draw(st.sampled_from([0, 0, 1, 3])) if version == 1 else 0  # v1 need not be cluster aligned
     alloc = {cl: first + s * cs + shift for cl, s in zip(alloc_l, slots)}
+    # BAT entries are unsigned 32-bit numbers (sectors in version 1, cluster indices in version 2): some images keep their data
+    # around and above entry value 2^31
+    far = draw(st.sampled_from([0, 0, 0, 0, 0x7FFFFFF0, 0x80000000, 0xFFF00000])) if not geometry else 0
+    if far and alloc:
+        unit_ = 1 if version == 1 else cs
+        span_ = (max(slots, default=0) + 2) * cs + 8
+        base_entry = min(far, (1 << 32) - 1 - span_ // unit_ - 1)
+        base_sec = base_entry * unit_
+        alloc = {cl: base_sec + s * cs + shift for cl, s in zip(alloc_l, slots)}
     forced = None
     mode = draw(st.sampled_from(["none", "none", "coincide", "coincide-1", "coincide+1"]))
     if mode != "none" and ncl >= 2:
@@ -77,6 +87,8 @@ def hds_spec(draw, tier="quick", layer=0, geometry=None, version=None):
         "first_block_offset": first, "in_use": draw(st.booleans()), "alloc": sorted([c, fs] for c, fs in alloc.items()),
         "layer": layer,
     }
+    if version == 1 and draw(st.integers(0, 3)) == 0:
+        spec["first_block_field"] = 0  # the legacy layout leaves m_FirstBlockOffset zero
     return spec, forced
 
 
